@@ -106,7 +106,7 @@ func CmdCheck(args []string) int {
 	if len(pats) == 0 {
 		return fail("no contract file mentions property " + *prop)
 	}
-	e, err := NewEngine(Options{RepoDir: *repo, Prop: *prop, Tier: *tier, StrBytes: true}, pats)
+	e, err := NewEngine(Options{RepoDir: *repo, Prop: *prop, Tier: *tier, StrBytes: true, NilChecks: true}, pats)
 	if err != nil {
 		return fail("loading /repo: " + err.Error())
 	}
@@ -154,7 +154,7 @@ func CmdCheck(args []string) int {
 		}
 	}
 	nObl, nDis, nCov, nCovReach, violations := 0, 0, 0, 0, 0
-	var undecided, unsupported, knownHit []string
+	var undecided, unsupported, knownHit, unprovedHit []string
 	var samples []map[string]interface{}
 	var under []string
 	notes := map[string]bool{}
@@ -185,6 +185,12 @@ func CmdCheck(args []string) int {
 				}
 				if o.Status == "refuted" {
 					deadCovers[v.name] = append(deadCovers[v.name], o.Name)
+				}
+				continue
+			}
+			if e.unproved[o.Name] {
+				if o.Status != "proved" {
+					unprovedHit = append(unprovedHit, o.Name)
 				}
 				continue
 			}
@@ -268,6 +274,7 @@ func CmdCheck(args []string) int {
 		"covers":                   map[string]int{"n": nCov, "reachable": nCovReach, "inconclusive": nCov - nCovReach},
 		"undecided":                undecided,
 		"dead_exits":               deadExits,
+		"not_proved_at_enrolment":  unprovedHit,
 		"unsupported":              unsupported,
 		"known_findings_hit":       knownHit,
 		"abstracted":               pick(notes, "abstracted:"),
@@ -376,6 +383,12 @@ func (e *Engine) replayObligation(verifDir, prop string, v *VC, o *Obl) (string,
 		reproduced = ok
 	} else {
 		b.WriteString("\nthe solvers returned no model for this obligation (quantified goal); it was discharged on the unchanged tree and is not discharged now.\n")
+	}
+	if !reproduced {
+		if rep, ok := e.adapterReplay(verifDir, o); rep != "" {
+			b.WriteString("\n" + rep)
+			reproduced = ok
+		}
 	}
 	return writeReplay(verifDir, prop, o.Name, b.String()), reproduced
 }
